@@ -381,7 +381,13 @@ func (e *IntegerExpression) MarshalJSON() ([]byte, error) {
 	})
 }
 
-func (*IntegerExpression) precedence() expressionPrecedence {
+func (e *IntegerExpression) precedence() expressionPrecedence {
+	// A negative literal is printed with a minus prefix,
+	// which the parser binds weaker than postfix and access operators:
+	// `-1.foo` is `-(1.foo)`, not `(-1).foo`
+	if e.Value != nil && e.Value.Sign() < 0 {
+		return expressionPrecedenceUnaryPrefix
+	}
 	return expressionPrecedenceLiteral
 }
 
@@ -476,7 +482,11 @@ func (e *FixedPointExpression) MarshalJSON() ([]byte, error) {
 	})
 }
 
-func (*FixedPointExpression) precedence() expressionPrecedence {
+func (e *FixedPointExpression) precedence() expressionPrecedence {
+	// See IntegerExpression.precedence
+	if e.Negative {
+		return expressionPrecedenceUnaryPrefix
+	}
 	return expressionPrecedenceLiteral
 }
 
@@ -1071,12 +1081,24 @@ func (e *MemberExpression) Doc(ctx PrettyContext) prettier.Doc {
 		separatorDoc = memberExpressionSeparatorDoc
 	}
 
-	return ctx.Wrap(e, prettier.Concat{
-		parenthesizedExpressionDoc(
+	var expressionDoc prettier.Doc
+	if _, ok := e.Expression.(*IntegerExpression); ok {
+		// An integer literal directly followed by a dot is lexed as a fixed-point literal:
+		// `1.foo` is invalid, `(1).foo` is not
+		expressionDoc = prettier.WrapParentheses(
+			e.Expression.Doc(ctx),
+			prettier.SoftLine{},
+		)
+	} else {
+		expressionDoc = parenthesizedExpressionDoc(
 			ctx,
 			e.Expression,
 			e.precedence(),
-		),
+		)
+	}
+
+	return ctx.Wrap(e, prettier.Concat{
+		expressionDoc,
 		prettier.Group{
 			Doc: prettier.Indent{
 				Doc: prettier.Concat{
@@ -1444,7 +1466,10 @@ func (e *UnaryExpression) MarshalJSON() ([]byte, error) {
 	})
 }
 
-func (*UnaryExpression) precedence() expressionPrecedence {
+func (e *UnaryExpression) precedence() expressionPrecedence {
+	if e.Operation == OperationMove {
+		return expressionPrecedenceMove
+	}
 	return expressionPrecedenceUnaryPrefix
 }
 
@@ -2042,7 +2067,7 @@ func (e *DestroyExpression) Doc(ctx PrettyContext) prettier.Doc {
 		parenthesizedExpressionDoc(
 			ctx,
 			e.Expression,
-			e.precedence(),
+			expressionPrecedenceUnaryPrefix,
 		),
 	})
 }
@@ -2069,7 +2094,10 @@ func (e *DestroyExpression) MarshalJSON() ([]byte, error) {
 }
 
 func (*DestroyExpression) precedence() expressionPrecedence {
-	return expressionPrecedenceUnaryPrefix
+	// The parser parses the destroyed expression with the lowest binding power,
+	// i.e. `destroy a + b` is `destroy (a + b)`:
+	// a destroy expression followed by any operator needs parentheses
+	return expressionPrecedenceTernary
 }
 
 // ReferenceExpression
